@@ -98,6 +98,17 @@ def build(ctx):
     for (label, decls, stmts), t, shape in itertools.product(extras, ELEMS, SHAPES[1:] if not ctx.quick else SHAPES[1:3]):
         add("p-array next to " + label, ["tdm", "tdm-target", "none"], decls + [parr("p0", t, shape)] + [st("Sgate", [V("p0")], [], [N("1")])] + stmts)
         add("p-array declared after " + label, ["tdm"], [parr("p0", t, shape)] + decls + stmts)
+    # a p-array that is itself a whole-array template parameter (declared shape, single {param})
+    for nm, t, shape in itertools.product(("p0", "p2"), ELEMS, ((1, 2), (1, 3), (2, 2))):
+        tp = ("arr", t, nm, shape, [[P("sq")]])
+        add("p-array declared as a whole-array template", ["tdm", "none"], [tp, st("Sgate", [V(nm), N("0.0")], [], [N("1")]), st("MeasureHomodyne", [], [("phi", V(nm))])])
+        add("p-array declared as a whole-array template", ["tdm"], [parr("p1", "float", (1, 2)), tp, st("G", [V("p1"), V(nm)], [])])
+    # an ordinary array with the same element type and numbers as a p-array declared before / after it, passed by value
+    for t, shape in itertools.product(ELEMS, SHAPES[1:]):
+        twin = parr("A", t, shape)
+        for order in ("p-first", "A-first"):
+            decls = [parr("p0", t, shape), twin] if order == "p-first" else [twin, parr("p0", t, shape)]
+            add("ordinary array equal to a p-array (%s)" % order, ["tdm", "none"], decls + [st("Correct", [V("A"), V("p0"), N("0.4")], []), st("MeasureHomodyne", [], [("phi", V("p0")), ("offset", V("A"))])])
     add("no p-arrays", allm, [st("G", [N("1")], [])])
     add("no p-arrays, parameter", allm, [st("G", [P("a")], [])])
     return scripts, fam
@@ -120,6 +131,9 @@ def judge(mk, sc):
     # round trip
     s2, t = common.dumps(p)
     if s2 == "exc":
+        has_param_array = any(it[0] == "arr" and any(x[0] == "par" for row in it[4] for x in row) for it in sc["items"])
+        if has_param_array and ((type(t).__name__ == "KeyError" and "'O'" in str(t)) or (type(t).__name__ == "ValueError" and "unsupported type object" in str(t))):
+            return ("C15/array-with-parameters-not-serialisable", common.exc_sig(t))
         return ("C15/dumps-raises:" + type(t).__name__ + ":" + common.msgclass(t), common.exc_sig(t))
     s3, q = common.loads(t)
     if s3 == "exc":
